@@ -23,6 +23,7 @@ import (
 	"strings"
 	"sync"
 	"testing/synctest"
+	"time"
 
 	"github.com/vipnode/vipnode/v2/pool/store"
 	"pgregory.net/rapid"
@@ -428,6 +429,21 @@ func bubbleLeftovers() []string {
 func closeStore(st interface{ Close() error }) error {
 	if myBubble() != "" {
 		synctest.Wait()
+	} else {
+		// outside a bubble: give a straggling prefetch the time to finish (each leaked one keeps a whole closed
+		// database reachable - 12 GB after 2800 crash cases in one process, thorough run #8)
+		buf := make([]byte, 1<<16)
+		for i := 0; i < 200; i++ {
+			n := runtime.Stack(buf, true)
+			for n == len(buf) {
+				buf = make([]byte, 2*len(buf))
+				n = runtime.Stack(buf, true)
+			}
+			if !bytes.Contains(buf[:n], []byte("(*Item).prefetchValue")) {
+				break
+			}
+			time.Sleep(50 * time.Microsecond)
+		}
 	}
 	return st.Close()
 }
